@@ -45,4 +45,16 @@ static int op_keygen(int argc, char **argv, FILE *o) {
     crypto_core_ed25519_scalar_random(k); crypto_core_ristretto255_random(k);
     fputs(memcmp(k, z, 32) == 0 ? "degenerate" : "ok", o); return 0;
 }
-const hx_op ops_c19[] = { { "thr.rand", op_rand }, { "thr.uniform", op_uniform }, { "thr.alloc", op_alloc }, { "thr.keygen", op_keygen }, { NULL, NULL } };
+/* thr.closebuf <n>: randombytes_close() then draw again (the generator must re-seed itself; on this platform close only
+   touches per-thread / no shared state, so concurrent use from other threads stays race-free) */
+static int op_closebuf(int argc, char **argv, FILE *o) {
+    uint64_t n; unsigned char *a, *b; int rc;
+    if (argc != 1 || hx_u64(argv[0], &n) || n > (1 << 16)) return -1;
+    a = (unsigned char *) malloc(n ? n : 1); b = (unsigned char *) malloc(n ? n : 1);
+    rc = randombytes_close(); randombytes_buf(a, (size_t) n); (void) randombytes_close(); randombytes_buf(b, (size_t) n);
+    if (rc != 0) fprintf(o, "close-failed %d", rc);
+    else if (n >= 16 && memcmp(a, b, (size_t) n) == 0) fprintf(o, "degenerate %llu", (unsigned long long) n);
+    else fprintf(o, "ok %llu", (unsigned long long) n);
+    free(a); free(b); return 0;
+}
+const hx_op ops_c19[] = { { "thr.closebuf", op_closebuf }, { "thr.rand", op_rand }, { "thr.uniform", op_uniform }, { "thr.alloc", op_alloc }, { "thr.keygen", op_keygen }, { NULL, NULL } };
